@@ -441,20 +441,20 @@ class Check(core.PropertyCheck):
     def model_constants(self, tier):
         S = self._shape
         if tier == "quick":
-            configs = {(fd, st, False) for fd in range(0, 5) for st in (False, True) if not (fd == 0 and st)}
-            configs |= {(1, True, True), (2, False, True)}
+            configs = {(0, False, False), (1, False, False), (1, True, True), (2, True, False), (2, False, True),
+                       (3, True, False), (4, False, False), (4, True, False)}
             shapes = [S("response", True, False, True, False, False), S("error", True, True, False, True, False),
-                      S("http_connect_error", False, True, True, False, False),
-                      S("response", True, False, True, True, True)]
-            pcl = ("esc", "c0", "del", "c1", "sp", "print", "uni", "bin")
+                      S("http_connect_error", False, True, True, False, True)]
+            pcl = ("esc", "c0", "del", "c1", "sp", "print")
             ws, dns = ("normal", "abnormal"), ("txt", "cname", "https", "none")
         else:
-            configs = {(fd, st, sh) for fd in range(0, 5) for st in (False, True) for sh in (False, True)}
-            shapes = [S(h, r, e, b, t, h2) for h in ("response", "error", "http_connect_error")
-                      for r in (False, True) for e in (False, True) for b in (False, True) for t in (False, True)
-                      for h2 in (False, True)
-                      if (h == "response" and r and not e) or (h == "error" and e) or
-                      (h == "http_connect_error" and e and not r and not t)]
+            configs = {(fd, st, False) for fd in range(0, 5) for st in (False, True)}
+            configs |= {(1, True, True), (2, False, True), (3, True, True), (4, False, True)}
+            shapes = [S("response", True, False, b, t, h2) for b in (False, True) for t in (False, True) for h2 in (False, True)]
+            shapes += [S("error", r, True, b, t, False) for r in (False, True) for b in (False, True) for t in (False, True)
+                       if not (r and b and t)]
+            shapes += [S("error", True, True, True, True, True), S("http_connect_error", False, True, True, False, False),
+                       S("http_connect_error", False, True, False, False, True)]
             pcl = CLASS_ORDER
             ws, dns = ("normal", "abnormal", "unknown"), ("txt", "cname", "https", "none")
         return {"Configs": frozenset(configs), "HttpShapes": frozenset(_FrozenDict(s) for s in shapes),
@@ -462,11 +462,11 @@ class Check(core.PropertyCheck):
                 "MaxHooks": 1, "RawSites": RAW_SITES, "EccKeepsC1": ECC_KEEPS_C1}
 
     def model_runs(self, ctx):
-        res = [ctx.model_check(self.MODEL, self.model_constants(ctx.tier), dump=True)]
+        res = [ctx.model_check(self.MODEL, self.model_constants(ctx.tier), dump=True, timeout=900 if ctx.quick else 3000)]
         if not ctx.quick:
             # design-level result: with every field escaped and C1 translated the model has no reachable violation
             fixed = dict(self.model_constants("quick"), RawSites=frozenset(), EccKeepsC1=False)
-            r2 = ctx.model_check(self.MODEL, fixed, dump=False, tag="_fixed")
+            r2 = ctx.model_check(self.MODEL, fixed, dump=False, tag="_fixed", timeout=1500)
             ctx.notes["model_with_all_sites_escaped_reachable_bad"] = r2.bad
             if r2.bad:
                 raise core.MachineryError(f"the 'everything escaped' instance of the model still violates: {r2.bad}")
@@ -535,8 +535,15 @@ class Check(core.PropertyCheck):
             pred = core.predicted_events(b)
             for _ in range(reps):
                 yield core.Scenario({"ops": self._ops(b, ctx.rng)}, predicted=pred, source="model")
+        if not ctx.quick:
+            # sequences Configure/hook/Configure/hook... (the Dumper keeps only its options between hooks)
+            behs2, _r = ctx.simulate(self.MODEL, dict(self.model_constants("quick"), MaxHooks=3), num=1500, depth=8)
+            for b in behs2:
+                ops = self._ops(b, ctx.rng)
+                if len(ops) >= 2:
+                    yield core.Scenario({"ops": ops}, predicted=core.predicted_events(b), source="simulate")
         rng = random.Random(ctx.seed + 49)
-        for _ in range(1500 if ctx.quick else 30000):
+        for _ in range(3000 if ctx.quick else 40000):
             yield core.Scenario({"random": rng.randrange(1 << 30)}, source="random")
 
     # ---- execution -------------------------------------------------------------------------------------------
@@ -628,7 +635,9 @@ class Check(core.PropertyCheck):
             return "".join(parts)
 
         def inject(sites, p=0.6):
-            return {s: value(s, rand_payload(s)) for s in sites if rng.random() < p}
+            # few fields per scenario: validation stops at the first violated segment of a trace
+            k = rng.choice([1, 1, 2, 3])
+            return {s: value(s, rand_payload(s)) for s in rng.sample(sites, min(k, len(sites)))}
 
         fd = rng.choice([1, 2, 3, 3, 4, 4])
         styled = rng.random() < 0.5
@@ -645,14 +654,14 @@ class Check(core.PropertyCheck):
         d = dumper.Dumper(sink)
         trace = [{"k": "conf", "fd": fd, "styled": styled, "showhost": showhost}]
         with StyleTap() as tap:
-            for _ in range(rng.randint(1, 3)):
-                kind = rng.choice(["http", "http", "http", "wsmsg", "wsend", "pmsg", "perr", "dnsresp", "dnserr"])
+            for _ in range(1):
+                kind = rng.choice(["http", "http", "http", "http", "wsmsg", "wsend", "pmsg", "perr", "dnsresp", "dnserr"])
                 if kind == "http":
                     hook = rng.choice(["response", "error", "http_connect_error"])
                     sh = {"hook": hook, "resp": hook == "response" or (hook == "error" and rng.random() < 0.5),
                           "err": hook != "response", "body": rng.random() < 0.8, "trl": rng.random() < 0.4,
                           "h2": rng.random() < 0.3, "status": rng.choice([200, 204, 302, 404, 418, 500, 99, 700]),
-                          "replay": rng.choice([None, None, "request", "response"]), "pushed": rng.random() < 0.1,
+                          "replay": rng.choice([None, None, "request", "response"]), "pushed": rng.random() < 0.2,
                           "ascii": rng.random() < 0.5}
                     for side in ("req", "resp"):
                         fmt = rng.choice(["text", "text", "json", "xml", "form", "js", "css"])
@@ -665,6 +674,9 @@ class Check(core.PropertyCheck):
                     inj = inject(["method", "url_path", "req_version", "req_hname", "req_hvalue", "host_header",
                                   "req_body", "req_tname", "req_tvalue", "resp_version", "reason", "resp_hname",
                                   "resp_hvalue", "resp_body", "resp_tname", "resp_tvalue", "error_msg"], 0.4)
+                    if "url_path" in inj and rng.random() < 0.5:  # long URLs: truncation at flow_detail 1
+                        pad = "a" * rng.choice([20, 60, 150])
+                        inj["url_path"] = pad + inj["url_path"] if rng.random() < 0.5 else inj["url_path"] + pad
                     f = build_http(sh, inj)
                     ftype, call = "http", (lambda f=f, h=hook: getattr(d, h)(f))
                 elif kind == "wsmsg":
